@@ -44,6 +44,9 @@ def build_case(cid, b, rng, channel=None):
             "sec": concrete_sec(b["sec"], rng),
             "dns": "s" if b["dns"] == "alt" else None, "dew": "e" if b["dew"] == "alt" else None,
             "ocr": bool(b.get("ocr"))}
+    # the alternative defaults either by keyword / config of the call or (a quarter of the cases) as the program-wide
+    # MasterConfig defaults, the call saying nothing
+    args["via_mc"] = bool((args["dns"] or args["dew"]) and rng.random() < 0.25)
     return {"id": cid, "kind": "c12", "abs": {"kind": "build", "build": b}, "args": args}
 
 
